@@ -180,3 +180,155 @@ def memoised_functions(ctx, modnames):
             out.append({"module": mn, "function": q, "line": fn.lineno, "file": src.rel, "decorators": decos, "bad_params": bad,
                         "stmt": f"@{decos[0]} def {fn.name}({', '.join(a.arg for a in fn.args.args)})"})
     return out
+
+
+READ_METHODS = {"read", "readinto", "read1", "readline", "readlines", "peek", "recv", "recv_into", "readexactly", "readuntil"}
+
+
+def raw_read_sites(ctx, modnames):
+    """Every `<x>.read(...)`-like call in the given modules: (site 'module:qualname:line', stmt, file, line)."""
+    out = []
+    for mn in modnames:
+        src = ctx.sm.get(mn)
+        if src is None:
+            continue
+        qidx = qualname_index(src.tree)
+        for node in ast.walk(src.tree):
+            if isinstance(node, ast.Call) and isinstance(node.func, ast.Attribute) and node.func.attr in READ_METHODS:
+                q, fn = enclosing(qidx, src.tree, node)
+                out.append({"site": f"{mn}:{q}:{node.lineno}", "function": f"{mn}:{q}", "stmt": ast.unparse(node)[:120], "file": src.rel,
+                            "line": node.lineno, "method": node.func.attr, "referenced": _referenced(ctx, q.split(".")[0])})
+    return out
+
+
+_REF_CACHE: dict = {}
+
+
+def _referenced(ctx, top_name: str) -> bool:
+    """Is the top-level function `top_name` mentioned anywhere in kio besides its own definition (dead code is not on any decode path)."""
+    if not _REF_CACHE:
+        names: dict = {}
+        for m in ctx.sm.by_prefix("kio"):
+            if m.name.startswith("kio.schema."):
+                continue
+            for n in ast.walk(m.tree):
+                if isinstance(n, ast.Name):
+                    names[n.id] = names.get(n.id, 0) + 1
+                elif isinstance(n, ast.Attribute):
+                    names[n.attr] = names.get(n.attr, 0) + 1
+                elif isinstance(n, ast.alias):
+                    names[n.name] = names.get(n.name, 0) + 1
+                elif isinstance(n, ast.Constant) and isinstance(n.value, str) and n.value.isidentifier():
+                    names[n.value] = names.get(n.value, 0) + 1  # __all__ entries
+        _REF_CACHE.update(names)
+    return _REF_CACHE.get(top_name, 0) > 0
+
+
+def unbounded_read_loops(ctx, modnames):
+    """`while` loops that read from a stream without an end-of-stream exit: the chunk obtained by the
+    read is never tested for emptiness/shortness on a branch that leaves the loop."""
+    out = []
+    for mn in modnames:
+        src = ctx.sm.get(mn)
+        if src is None:
+            continue
+        qidx = qualname_index(src.tree)
+        for loop in ast.walk(src.tree):
+            if not isinstance(loop, ast.While):
+                continue
+            chunks = set()
+            for n in ast.walk(loop):
+                if isinstance(n, (ast.Assign, ast.AnnAssign, ast.NamedExpr)) and isinstance(getattr(n, "value", None), ast.Call):
+                    inner = [c for c in ast.walk(n.value) if isinstance(c, ast.Call) and isinstance(c.func, ast.Attribute) and c.func.attr in READ_METHODS]
+                    if inner:
+                        tgts = n.targets if isinstance(n, ast.Assign) else [n.target]
+                        for t in tgts:
+                            for nm in ast.walk(t):
+                                if isinstance(nm, ast.Name):
+                                    chunks.add(nm.id)
+            reads = [c for c in ast.walk(loop) if isinstance(c, ast.Call) and isinstance(c.func, ast.Attribute) and c.func.attr in READ_METHODS]
+            if not reads:
+                continue
+            exits = bool({x.id for x in ast.walk(loop.test) if isinstance(x, ast.Name)} & chunks) and any(
+                isinstance(x, ast.NamedExpr) for x in ast.walk(loop.test))  # `while chunk := read(n):` stops on b""
+            for n in ast.walk(loop):
+                if isinstance(n, ast.If):
+                    names = {x.id for x in ast.walk(n.test) if isinstance(x, ast.Name)}
+                    leaves = any(isinstance(x, (ast.Raise, ast.Break, ast.Return)) for st in n.body + n.orelse for x in ast.walk(st))
+                    if names & chunks and leaves:
+                        exits = True
+            if not exits:
+                q, fn = enclosing(qidx, src.tree, loop)
+                out.append({"function": f"{mn}:{q}", "stmt": "while " + ast.unparse(loop.test)[:80] + ": ... " + ast.unparse(reads[0])[:60],
+                            "file": src.rel, "line": loop.lineno})
+    return out
+
+
+def mutable_buffer_returns(ctx, modnames):
+    """Functions of the decode path that hand out a bytearray / memoryview: the buffer is allocated locally (or obtained
+    from a function that hands one out) and returned without conversion.  Interprocedural by name within the modules
+    (fixpoint); reported for public functions and closures (what readers are made of), not for private helpers whose
+    callers convert the result."""
+    MUT = {"bytearray", "memoryview"}
+    funcs = {}
+    for mn in modnames:
+        src = ctx.sm.get(mn)
+        if src is None:
+            continue
+        for fn, q in qualname_index(src.tree).items():
+            if isinstance(fn, ast.FunctionDef):
+                funcs[(mn, q)] = (fn, src)
+    by_name = {}
+    for (mn, q), (fn, src) in funcs.items():
+        by_name.setdefault(fn.name, []).append((mn, q))
+    returns_mut: dict = {}
+
+    def own_nodes(fn):
+        stack = list(fn.body)
+        while stack:
+            n = stack.pop()
+            yield n
+            for ch in ast.iter_child_nodes(n):
+                if not isinstance(ch, (ast.FunctionDef, ast.AsyncFunctionDef, ast.Lambda, ast.ClassDef)):
+                    stack.append(ch)
+
+    def is_mut_expr(v, tainted):
+        if isinstance(v, ast.Name):
+            return v.id in tainted
+        if isinstance(v, ast.IfExp):
+            return is_mut_expr(v.body, tainted) or is_mut_expr(v.orelse, tainted)
+        if isinstance(v, ast.Call):
+            if isinstance(v.func, ast.Name) and v.func.id in MUT:
+                return True
+            if isinstance(v.func, ast.Attribute) and v.func.attr == "getbuffer":
+                return True
+            if isinstance(v.func, ast.Name) and any(k in returns_mut for k in by_name.get(v.func.id, [])):
+                return True
+        return False
+
+    changed = True
+    while changed:
+        changed = False
+        for key, (fn, src) in funcs.items():
+            if key in returns_mut:
+                continue
+            tainted = set()
+            for _ in range(3):
+                for n in own_nodes(fn):
+                    if isinstance(n, (ast.Assign, ast.AnnAssign)) and getattr(n, "value", None) is not None and is_mut_expr(n.value, tainted):
+                        for t in (n.targets if isinstance(n, ast.Assign) else [n.target]):
+                            if isinstance(t, ast.Name):
+                                tainted.add(t.id)
+            for n in own_nodes(fn):
+                if isinstance(n, ast.Return) and n.value is not None and is_mut_expr(n.value, tainted):
+                    returns_mut[key] = n
+                    changed = True
+                    break
+    out = []
+    for (mn, q), n in returns_mut.items():
+        fn, src = funcs[(mn, q)]
+        if fn.name.startswith("_") and "." not in q:
+            continue
+        out.append({"function": f"{mn}:{q}", "stmt": ast.unparse(n)[:100], "file": src.rel, "line": n.lineno,
+                    "name": ast.unparse(n.value)[:40]})
+    return out
